@@ -11,7 +11,7 @@ Not decided: barycentre / velocity equalities on floats, the random creators' ge
 import ast
 from typing import List, Optional
 
-from ..core import AnalysisError, Loc, Report, Source, norm
+from ..core import tolerant, IdiomNotRecognised, AnalysisError, Loc, Report, Source, norm
 from ..handlers import concrete_handlers, getattr_dispatch, parent_map, stores
 from ..protocol import HandlerProtocol, Roles
 from ..pyfront import Program, body_without_docstring, param_names, self_attr
@@ -21,11 +21,12 @@ from ..selftest import Edit
 ID = "C12"
 
 
+@tolerant("R12.2-commit-roles")
 def check_commit_routine(prog: Program, rep: Report) -> None:
     base = prog.class_named("LeavesEventHandler")
     roles = Roles(prog, base)
     if not (roles.register and roles.commit and roles.commit_subtree):
-        raise AnalysisError("LeavesEventHandler: register / commit routines not identified by role")
+        raise IdiomNotRecognised("LeavesEventHandler: register / commit routines not identified by role")
     file = base.file
     # ---- register: change weighted by the leaf's weight, each ancestor level multiplies by that ancestor's weight once
     reg = roles.canonical[sorted(roles.register)[0]]
@@ -111,7 +112,15 @@ def check_commit_routine(prog: Program, rep: Report) -> None:
     rec = [n for n in ast.walk(cs) if isinstance(n, ast.Call) and isinstance(n.func, ast.Attribute)
            and n.func.attr == cs.name]
     loops = [n for n in ast.walk(cs) if isinstance(n, ast.For) and "children" in norm(n.iter)]
-    rep.ob("R12.2-recurses-children", bool(rec) and bool(loops) and all(_top_level(cs, l) for l in loops), loc,
+    # ... or, written with an explicit work list (normal form `for c in __subtree_nodes__([node])`), the whole routine is the body of
+    # one unconditional loop over all nodes below its parameter
+    cs_params = [p_ for p_ in param_names(cs)]
+    whole = [n for n in body_without_docstring(cs) if isinstance(n, ast.For) and isinstance(n.iter, ast.Call)
+             and norm(n.iter.func) == "__subtree_nodes__" and len(n.iter.args) == 1
+             and norm(n.iter.args[0]).strip("[]()") .rstrip(",") in cs_params]
+    descends = (bool(rec) and bool(loops) and all(_top_level(cs, l) for l in loops)) or \
+        (len(whole) == 1 and all(isinstance(x, ast.For) or isinstance(x, (ast.Pass, ast.Expr)) for x in body_without_docstring(cs)))
+    rep.ob("R12.2-recurses-children", descends, loc,
            f"{cs.name}: recursion over children",
            "the commit must descend into all children unconditionally")
     # commit: iterates the whole state, then clears the dictionary
